@@ -10,6 +10,9 @@
 //! ops: `open t=<secs>` | `revoke` | `tick ms=<n>` | `poll`
 //!      `openenh pw=<n> t=<secs> sl=<salt bytes> it=<iterations> disc=<discriminator>`   `Pase::open_comm_window` with the
 //!                                                          verifier of passcode n for that salt / iteration count
+//!      `cmdopen pw=<n> t=<secs> sl=<salt bytes> it=<iterations> disc=<d> [vl=<verifier bytes>]`   the same through the real
+//!                                                          `AdminCommHandler::handle_open_commissioning_window` (parameter checks)
+//!      `cmdbasic t=<secs>`                                 `AdminCommHandler::handle_open_basic_commissioning_window`
 //!      `pbkdf i=<k> [req=good|malformed|pid] [sai=<ms>] [sii=<ms>] [sat=<ms>] [dup=1]`   first message of initiator k (new exchange)
 //!      `pake1 i=<k> pw=<n> [pt=valid|zero|offcurve|short|inf1|comp|long|comp65|hybrid|xgep|pfield|gen|m|n|neg] [dup=1]`
 //!      `pake3 i=<k> [ca=good|flip|zero|short|replay:<j>] [dup=1]`   (replay: the cA initiator j computed)
@@ -59,6 +62,8 @@ use rs_matter::Matter;
 
 #[path = "c02_gen.rs"]
 mod c02_gen;
+#[path = "c02_cmd.rs"]
+mod c02_cmd;
 
 const REPLY_WAIT_MS: u64 = 1500;
 /// address of a node that does not exist: peer of the filler sessions
@@ -369,6 +374,49 @@ async fn run_script<'a, C: Crypto>(
                 }) {
                     Ok(()) => "ok".into(),
                     Err(e) => format!("err:{:?}", e.code()),
+                }
+            }
+            "cmdopen" | "cmdbasic" => {
+                // the command arrives on an exchange of a session that is not a CASE session (no opener); session and
+                // exchange exist only for the duration of the call
+                let slot = device.with_state(|st| {
+                    st.verif_sessions_mut().add(9, false, addr_of(NOWHERE), None, &TEST_DEV_DET).ok().and_then(|sess| {
+                        let id = sess.id();
+                        sess.verif_add_exch(39_999, true).map(|idx| (id, idx))
+                    })
+                });
+                match slot {
+                    None => "skip".into(),
+                    Some((sid, idx)) => {
+                        let pw = (num(&m, "pw") as u32).to_le_bytes();
+                        let salt = enh_salt(num(&m, "pw"), num(&m, "sl") as usize);
+                        let it = num(&m, "it") as u32;
+                        let mut verifier = Spake2pVerifierStr::new();
+                        if head == "cmdopen" {
+                            // the verifier is computed for the requested parameters; for an iteration count the handler
+                            // refuses anyway (beyond 100000, or 0) any verifier will do
+                            let vit = if it == 0 || it > 100_000 { 1000 } else { it };
+                            Spake2P::verif_compute_verifier(crypto, Spake2pVerifierPasswordRef::new(&pw), vit, &salt, &mut verifier)?;
+                        }
+                        let mut vbytes = verifier.access().to_vec();
+                        vbytes.resize(if m.contains_key("vl") { num(&m, "vl") as usize } else { 97 }, 0x11);
+                        let r = {
+                            let ex = Exchange::verif_new(device, sid, idx);
+                            let cmd = if head == "cmdopen" {
+                                c02_cmd::Cmd::Open { timeout: num(&m, "t") as u16, verifier: &vbytes, discriminator: num(&m, "disc") as u16, iterations: it, salt: &salt }
+                            } else {
+                                c02_cmd::Cmd::OpenBasic { timeout: num(&m, "t") as u16 }
+                            };
+                            let r = c02_cmd::invoke(device, crypto, &ex, &cmd);
+                            core::mem::forget(ex);
+                            r
+                        };
+                        device.with_state(|st| {
+                            st.verif_sessions_mut().remove(sid);
+                        });
+                        harness_removed.push(sid);
+                        r
+                    }
                 }
             }
             "revoke" => match device.close_comm_window(&()) {
